@@ -66,21 +66,15 @@ where
 // NOTE: yes, I know the = / => distinction is ugly
 macro_rules! like_try_into {
     ($self:ident, $source:ty = $target:ty, $w:ident, $m:ident, $c:ident) => {{
-        let min = <$target>::min_value() as $source;
-        let max = <$target>::max_value() as $source;
-        if *$self <= max && *$self >= min {
-            $w.$m(*$self as $target)
-        } else {
-            Err(bad($self, $c))
+        match <$target as std::convert::TryFrom<$source>>::try_from(*$self) {
+            Ok(v) => $w.$m(v),
+            Err(_) => Err(bad($self, $c)),
         }
     }};
     ($self:ident, $source:ty => $target:ty, $w:ident, $m:ident, $c:ident) => {{
-        let min = <$target>::min_value() as $source;
-        let max = <$target>::max_value() as $source;
-        if *$self <= max && *$self >= min {
-            $w.$m::<LittleEndian>(*$self as $target)
-        } else {
-            Err(bad($self, $c))
+        match <$target as std::convert::TryFrom<$source>>::try_from(*$self) {
+            Ok(v) => $w.$m::<LittleEndian>(v),
+            Err(_) => Err(bad($self, $c)),
         }
     }};
 }
